@@ -152,7 +152,7 @@ func classifyError(e gwError) (string, bool) {
 	case strings.HasPrefix(e.Message, "unexpected response code"), strings.Contains(e.Message, "connection reset"),
 		strings.Contains(e.Message, "connection refused"), strings.HasPrefix(e.Message, "response exceeded maximum size"),
 		strings.HasPrefix(e.Message, "error decoding response"), strings.Contains(e.Message, "(simulated)"),
-		strings.HasSuffix(e.Message, ": EOF"): // a real connection dropped before the first response byte
+		strings.HasSuffix(e.Message, ": EOF"), strings.Contains(e.Message, "broken pipe"): // a connection dropped before the first response byte
 		return "EOther", names
 	case names:
 		return "EDownstream", names
